@@ -201,6 +201,43 @@ theorem src_unit_methods_distinct :
     c_unit_as_system_Unit_abbreviation ≠ c_unit_as_system_Unit_plural ∧
     c_unit_as_system_Unit_singular ≠ c_unit_as_system_Unit_plural := three_methods_distinct
 
+/-- pairwise distinct, as a boolean the kernel can evaluate -/
+def nodupB : List Bytes → Bool
+  | [] => true
+  | x :: xs => !xs.contains x && nodupB xs
+
+theorem nodupB_sound : ∀ l, nodupB l = true → l.Nodup
+  | [], _ => List.nodup_nil
+  | x :: xs, h => by
+    simp only [nodupB, Bool.and_eq_true, Bool.not_eq_true', List.contains_eq_mem, decide_eq_false_iff_not] at h
+    exact List.nodup_cons.mpr ⟨h.1, nodupB_sound xs h.2⟩
+
+/-- the identifiers of the units of every SI quantity, as declared in src/si on this run, are pairwise distinct -/
+theorem unit_names_distinct : (Gen.table.all fun q => nodupB (q.units.map fun u => u.name.bytes)) = true := by
+  decide +kernel
+
+/-- … so for the SI tables the statement needs no hypothesis: for every declared quantity and every position -/
+theorem src_units_enum_labels_si (q : QuantityDecl) (hq : q ∈ Gen.table) (i : Nat) (hi : i < q.units.length) :
+    let names := q.units.map fun u => u.name.bytes
+    let abbr := fun j => ((q.units[j]?).map (·.abbr.bytes)).getD []
+    let sing := fun j => ((q.units[j]?).map (·.sing.bytes)).getD []
+    let plur := fun j => ((q.units[j]?).map (·.plur.bytes)).getD []
+    run (envUnits names abbr sing plur) quantity_inherent_Units_abbreviation [variant names i] =
+      (.val (.str (q.units[i].abbr.bytes)), []) ∧
+    run (envUnits names abbr sing plur) quantity_inherent_Units_singular [variant names i] =
+      (.val (.str (q.units[i].sing.bytes)), []) ∧
+    run (envUnits names abbr sing plur) quantity_inherent_Units_plural [variant names i] =
+      (.val (.str (q.units[i].plur.bytes)), []) := by
+  intro names abbr sing plur
+  have hnd : names.Nodup := nodupB_sound _ (List.all_eq_true.mp unit_names_distinct q hq)
+  have hi' : i < names.length := by simpa [names] using hi
+  have ha : abbr i = q.units[i].abbr.bytes := by simp [abbr, hi]
+  have hs : sing i = q.units[i].sing.bytes := by simp [sing, hi]
+  have hp : plur i = q.units[i].plur.bytes := by simp [plur, hi]
+  rw [← ha, ← hs, ← hp]
+  exact ⟨units_abbreviation_eq names abbr sing plur hnd i hi', units_singular_eq names abbr sing plur hnd i hi',
+    units_plural_eq names abbr sing plur hnd i hi'⟩
+
 end SourceTieRx
 
 end Uom.C05
